@@ -2,6 +2,8 @@
 SPECIFICATION Spec
 CONSTANTS
   Variant = "chemkin_Hact"
+  ShomateOwn <- MCShomateOwn
+  ClassFilter <- MCChemkin
 INVARIANT TypeOK
 INVARIANT WellFormed
 INVARIANT Refines
